@@ -3,6 +3,7 @@ package main
 import (
 	"go/token"
 	"go/types"
+	"strings"
 
 	"golang.org/x/tools/go/ssa"
 )
@@ -10,7 +11,7 @@ import (
 func init() {
 	register(&Prop{
 		ID:         "C10",
-		Decided:    "(1) the session key encoder is injective and NULL-distinct (keyenc); (2) end = last activity + timeout wherever lastActive is stored, a new session is [ts, ts+timeout), and the last activity of an open session only moves forward (an accepted out-of-order event does not rewind it, so last+timeout never falls behind the end); (3) a session is marked expired only under time >= its end, the late policy of Add discards only late rows, allowance entries expire only at end+AllowedLateness; (4) gap split: on the branch of Add where a session for the key already exists, the append to that session is unreachable when ts > that session's end (otherwise the split depends on the expiry goroutine's schedule); (5) sessionMap/triggeredSessions/callback are accessed only under sw.mu.",
+		Decided:    "(1) the session key encoder is injective and NULL-distinct (keyenc); (2) end = last activity + timeout wherever lastActive is stored, a new session is [ts, ts+timeout), and the last activity of an open session only moves forward (an accepted out-of-order event does not rewind it, so last+timeout never falls behind the end); (3) a session is marked expired only under time >= its end, the late policy of Add discards only late rows, allowance entries expire only at end+AllowedLateness; (4) gap split: on the branch of Add where a session for the key already exists, the append to that session is unreachable when ts >= that session's end (otherwise the split depends on the expiry goroutine's schedule); (5) sessionMap/triggeredSessions/callback are accessed only under sw.mu; (6) a late row is appended only to a fired session of its own group, and the keys under which gap-closed and fired sessions are kept are numbered by a counter (unique per session).",
 		NotDecided: "that each event is in exactly one reported session under all schedules; window_start as the earliest accepted timestamp under out-of-order input; aggregate values.",
 		Run:        runC10,
 	})
@@ -229,6 +230,42 @@ func (a *A) ruleLateRowOwnGroup() {
 	}
 	if m == 0 {
 		a.Und("triggeredSessions#fired-session-key-unique", token.NoPos, "no store into triggeredSessions found")
+	}
+	// (c) a session closed by a gap is parked in sessionMap under a reserved key until it is delivered;
+	// that key, too, has to be unique per parking (two gap-closed sessions of one key can be pending at
+	// once when the watermark lags): it involves the parking counter, not a property of the session
+	// such as its start time, which two sessions can share after rounding.
+	smap := a.FieldOf(W, "sessionMap")
+	for _, fn := range a.ModFuncs {
+		allInstrs(fn, func(in ssa.Instruction) {
+			mu, ok := in.(*ssa.MapUpdate)
+			if !ok {
+				return
+			}
+			if t := TermOf(mu.Map, nil); t.Kind != "field" || t.Field != smap {
+				return
+			}
+			// the plain group key (result of extractSessionCompositeKey) is the key of the group's open
+			// session; any other key is a derived one, i.e. a parked session
+			parked := true
+			for _, l := range phiLeaves(mu.Key) {
+				if c, ok := l.(*ssa.Call); ok && c.Call.StaticCallee() == keyFn {
+					parked = false
+				}
+			}
+			if !parked {
+				return
+			}
+			_ = strings.HasPrefix
+			unique := false
+			for x := range backwardSlice(mu.Key, 8) {
+				if t := TermOf(x, nil); t.Kind == "field" && t.Field == seq {
+					unique = true
+				}
+			}
+			a.Check(unique, fname(fn)+"#parked-session-key-unique", mu.Pos(), "each gap-closed session is parked under a key numbered by the parking",
+				"a gap-closed session is parked under "+TermOf(mu.Key, nil).String()+", which two pending sessions of one key can share: the later one overwrites the earlier, whose events are never reported")
+		})
 	}
 }
 
